@@ -3,12 +3,17 @@
    real ValidatingBlockstore / FileManager / Filestore (several runs separated by Reset events)
    must be a behaviour of VerifiedRead: every logged Get result must be one the spec allows in the
    state the logged faults lead to, and an ok result must carry bytes whose (independently
-   computed) hash is the CID. *)
+   computed) hash is the CID.  The harness keeps blocks it was handed (also across runs: `old`) and
+   re-examines them later (Recheck events, after sequential and concurrent Gets of other references
+   and after faults): every block it still holds must be one the spec says was handed out, with the
+   genuineness the spec says it has (RetainedGenuine / OldGenuine: always genuine). *)
 EXTENDS VerifiedRead, Integers
 
 Trace == ndJsonDeserialize("trace.ndjson")
-VARIABLE l
-tvars == <<vars, l>>
+VARIABLES l,
+          run,  \* number of the current run (Reset events so far)
+          old   \* blocks handed out in earlier runs: [run, r, genuine]
+tvars == <<vars, l, run, old>>
 ASSUME TLCSet(1, 0)
 
 Ev == Trace[l]
@@ -16,26 +21,42 @@ IsEvent(e) == l <= Len(Trace) /\ Trace[l].ev = e /\ l' = l + 1
 
 NoCfg == [kind |-> "vbs", P |-> 0, N |-> 0, S |-> 0, R |-> 1, rd |-> "v1"]
 TInit == l = 1 /\ cfg = NoCfg /\ st = "present" /\ base = "own" /\ cont = <<>> /\ last = None
+         /\ handed = {} /\ run = 0 /\ old = {}
 
 TReset == /\ IsEvent("Reset")
           /\ Ev.cfg.kind \in {"vbs", "file", "url"} /\ Ev.cfg.N \in 0..3 /\ Ev.cfg.R \in 1..3
           /\ cfg' = [kind |-> Ev.cfg.kind, P |-> Ev.cfg.P, N |-> Ev.cfg.N, S |-> Ev.cfg.S, R |-> Ev.cfg.R, rd |-> Ev.cfg.rd]
           /\ st' = "present" /\ base' = "own" /\ cont' = Zeros(Total(cfg')) /\ last' = None
-TFlip     == IsEvent("Flip") /\ Flip(Ev.i, Ev.m)
-TTruncate == IsEvent("Truncate") /\ Truncate(Ev.n)
-TExtend   == IsEvent("Extend") /\ Extend(Ev.v)
-TRemove   == IsEvent("Remove") /\ Remove
-TMakeDir  == IsEvent("MakeDir") /\ MakeDir
-TRestore  == IsEvent("Restore") /\ Restore
-TSwap     == IsEvent("Swap") /\ Swap
+          \* blocks of the finished run stay with their holders
+          /\ Ev.run = run + 1 /\ run' = run + 1 /\ handed' = {}
+          /\ old' = old \cup {[run |-> run, r |-> b.r, genuine |-> b.genuine] : b \in handed}
+Same      == UNCHANGED <<run, old>>
+TFlip     == IsEvent("Flip") /\ Flip(Ev.i, Ev.m) /\ Same
+TTruncate == IsEvent("Truncate") /\ Truncate(Ev.n) /\ Same
+TExtend   == IsEvent("Extend") /\ Extend(Ev.v) /\ Same
+TRemove   == IsEvent("Remove") /\ Remove /\ Same
+TMakeDir  == IsEvent("MakeDir") /\ MakeDir /\ Same
+TRestore  == IsEvent("Restore") /\ Restore /\ Same
+TSwap     == IsEvent("Swap") /\ Swap /\ Same
 TGet      == /\ IsEvent("Get") /\ Ev.detail = ""
              /\ [res |-> Ev.res, class |-> Ev.class, status |-> Ev.status] \in GetResults(Ev.r)
              /\ (Ev.res = "ok" => Ev.hashok /\ Ev.same)
              /\ Get(Ev.r)
              /\ last'.out = [res |-> Ev.res, class |-> Ev.class, status |-> Ev.status]
+             /\ Same
+\* the holder re-examines blocks it was handed earlier (projection: run, reference, "bytes hash to the
+\* CID now"): each must be a block the spec handed out, as the spec says it is now
+TRecheck  == /\ IsEvent("Recheck")
+             /\ \A i \in 1..Len(Ev.blocks) :
+                   LET b == Ev.blocks[i] IN
+                   IF b.run = run THEN [r |-> b.r, genuine |-> b.genuine] \in handed
+                                  ELSE [run |-> b.run, r |-> b.r, genuine |-> b.genuine] \in old
+             /\ UNCHANGED vars /\ Same
 
-TNext == TReset \/ TFlip \/ TTruncate \/ TExtend \/ TRemove \/ TMakeDir \/ TRestore \/ TSwap \/ TGet
+TNext == TReset \/ TFlip \/ TTruncate \/ TExtend \/ TRemove \/ TMakeDir \/ TRestore \/ TSwap \/ TGet \/ TRecheck
 TSpec == TInit /\ [][TNext]_tvars
+
+OldGenuine == \A b \in old : b.genuine
 
 TraceConstraint == TLCSet(1, IF l - 1 > TLCGet(1) THEN l - 1 ELSE TLCGet(1))
 TracePost == PrintT(<<"TRACE_HWM", TLCGet(1)>>)
